@@ -46,6 +46,17 @@ def o_roundtrip(a):
     back = eph.phase_to_met(ph, a['start'], a['duration'])
     periods = a['duration'] * a['eph']['nu0']
     err_cycles = float(numpy.abs((back - t) * a['eph']['nu0']).max())
+    if a['eph']['nudot0'] == 0. and a['eph']['nuddot'] == 0.:
+        # constant frequency: the zero-order guesses behind the optional arguments are exact, so every documented way of calling the
+        # inverse (window given, only its start given, nothing given) must round trip, also for events from a later part of the window
+        for off in (0., 0.5, 0.9):
+            ts = t[t >= a['start'] + off * a['duration']]
+            if len(ts) < 3:
+                continue
+            phs = eph.met_to_phase(ts)
+            for args in ((a['start'], a['duration']), (a['start'],), ()):
+                e = float(numpy.abs((eph.phase_to_met(phs, *args) - ts) * a['eph']['nu0']).max())
+                err_cycles = max(err_cycles, e)
     f = eph.fold(t, a['start'])
     f1 = eph.fold(t, a['start'], 0.3)
     inrange = bool((f >= 0).all() and (f < 1).all() and (f1 >= 0).all() and (f1 < 1).all())
@@ -146,7 +157,10 @@ def o_seedflow(a):
     roi = import_roi(cfg)
     src = [s for s in roi.values() if isinstance(s, xPeriodicPointSource)][0]
     start = a['start']
-    kwargs = simdrive.sim_kwargs(cfg, 'unused.fits', gtis=[(start, start + 100.), (start + 180., start + 400.)], start_met=start, duration=400.)
+    # the first good interval may begin well after the start of the observation (SAA / occultation at the start): the phases are still
+    # counted from the observation start, which is what xpphase folds with
+    late = a.get('late', 0.)
+    kwargs = simdrive.sim_kwargs(cfg, 'unused.fits', gtis=[(start + late, start + 100.), (start + 180., start + 400.)], start_met=start, duration=400.)
     irf_set = load_irf_set(kwargs['irfname'], a['du'])
     seen = {}
     orig = xPeriodicPointSource._rvs_phi
@@ -207,6 +221,7 @@ def explore(chk, budget=1):
     run_oracle(chk, 'source', dict(starts=[20000., 31234.567], du=int(g.integers(1, 4)), seed=int(g.integers(1, 10 ** 6))))
     for start in (0., 12345.678, float(g.uniform(1e3, 1e6))):
         run_oracle(chk, 'seedflow', dict(start=start, du=int(g.integers(1, 4)), seed=int(g.integers(1, 10 ** 6))), nontrivial=start != 0.)
+        run_oracle(chk, 'seedflow', dict(start=start, du=int(g.integers(1, 4)), seed=int(g.integers(1, 10 ** 6)), late=float(g.uniform(5., 60.))), nontrivial=True)
     replies = drv.run()
     for (eph, start, phi0, t, impl), rep in zip(jobs, replies):
         model = numpy.array([b2f(x) for x in rep.split()])
